@@ -143,6 +143,10 @@ func c09Child(args []string) int {
 			return 3
 		}
 	}
+	if os.Getenv("C09_CALLBACKS_FAIL") == "1" {
+		// the update under test is rejected by its callbacks (Prometheus refuses the reload)
+		tm.AddUpdateCallbacks(func(map[string][]*target.Target) error { return fmt.Errorf("scripted: reload failed") })
+	}
 	// marker: the update under test starts (visible in the syscall trace as a write to fd 1)
 	os.Stdout.WriteString("BEGIN\n")
 	if err := tm.UpdateTargets(&shard.UpdateTargetsRequest{Targets: next}); err != nil {
@@ -233,6 +237,7 @@ func init() {
 			return p
 		}
 		followFile := ""
+		callbacksFail := false
 		runChild := func(dir, nextFile string, fsize int64, strace []string) (string, int) {
 			args := []string{"-child", "c09child", dir, nextFile}
 			if fsize >= 0 || followFile != "" {
@@ -248,6 +253,9 @@ func init() {
 				cmd = exec.Command(self, args...)
 			}
 			cmd.Env = append(os.Environ(), "GOMAXPROCS=1")
+			if callbacksFail {
+				cmd.Env = append(cmd.Env, "C09_CALLBACKS_FAIL=1")
+			}
 			var out bytes.Buffer
 			cmd.Stdout = &out
 			cmd.Stderr = &out
@@ -511,6 +519,50 @@ func init() {
 						}, map[string]interface{}{"syscall": sp[0], "occurrence": sp[1], "inject": inj}, kind)
 					}
 					r.Outcome(fmt.Sprintf("%s/%s/%v", sp[0], inj, strings.Contains(out, "NACK")))
+				}
+			}
+			// (3b) the update is rejected by its callbacks (never acknowledged): the next starts resume the previous
+			// assignment, whatever else lies in the store directory
+			{
+				d := fresh()
+				callbacksFail = true
+				out, _ := runChild(d, nextFile, -1, nil)
+				callbacksFail = false
+				r.States++
+				r.Transitions++
+				if !strings.Contains(out, "NACK") {
+					r.Violate("C09:rejected-update-acknowledged", "update", fmt.Sprintf("%s -> %s with failing update callbacks was acknowledged: %s", pr.prev, pr.next, out), idx, &c09Replay{Property: "C09", Prev: pr.prev, Next: pr.next, Fault: "update callbacks fail", Child: out})
+				} else {
+					for round := 0; round < 2; round++ {
+						l := c09LoadDir(d)
+						if l.Err != "" || l.Targets != canonTargets(prevT) {
+							r.Violate("C09:rejected-update-resumed", "resume-exactly", fmt.Sprintf("%s -> %s rejected by its callbacks (never acknowledged): the next start resumes %d targets (%s) instead of the last acknowledged assignment", pr.prev, pr.next, l.N, l.Err), idx,
+								&c09Replay{Property: "C09", Clause: "resume-exactly", Prev: pr.prev, Next: pr.next, Fault: "update callbacks fail", Child: out, Loaded: map[string]interface{}{"err": l.Err, "n": l.N}})
+							break
+						}
+					}
+				}
+			}
+			// (3c) a store directory that still holds the old-version file (a shard upgraded long ago; nothing ever
+			// removes targets.json): acknowledged updates and restarts resume exactly the current store
+			{
+				d := fresh()
+				lb, _ := json.Marshal(cat["c-two-jobs"])
+				os.WriteFile(filepath.Join(d, "targets.json"), lb, 0o644)
+				out, _ := runChild(d, nextFile, -1, nil)
+				r.States++
+				r.Transitions++
+				if strings.Contains(out, "ACK") && !strings.Contains(out, "NACK") {
+					for round := 0; round < 2; round++ {
+						l := c09LoadDir(d)
+						if l.Err != "" || l.Targets != canonTargets(nextT) {
+							r.Violate("C09:legacy-file-merged", "resume-exactly", fmt.Sprintf("store directory with a leftover targets.json: %s -> %s acknowledged, start %d resumes %d targets (%s)", pr.prev, pr.next, round+1, l.N, l.Err), idx,
+								&c09Replay{Property: "C09", Clause: "resume-exactly", Prev: pr.prev, Next: pr.next, Fault: "leftover old-version targets.json (two jobs) in the store directory", Child: out, Loaded: map[string]interface{}{"err": l.Err, "n": l.N}})
+							break
+						}
+					}
+				} else {
+					r.Violate("C09:update-fails", "update", fmt.Sprintf("update %s -> %s with a leftover targets.json not acknowledged: %s", pr.prev, pr.next, out), idx, &c09Replay{Property: "C09", Prev: pr.prev, Next: pr.next, Child: out})
 				}
 			}
 			// (4) faults during the START that follows the acknowledged update: every store-directory system call
